@@ -23,7 +23,7 @@ static bool veq(double got, double want) { return std::fabs(got - want) <= 1e-12
 static void lwe_group(int n) {
     LweParams *par = new_LweParams(n, 0., 1.);
     LweSample *r = new_LweSample(par), *c2 = new_LweSample(par);
-    LweKey *keys[3]; for (int k = 0; k < 3; k++) { keys[k] = new_LweKey(par); uint64_t x = 31 + n; for (int i = 0; i < n; i++) keys[k]->key[i] = k == 0 ? 0 : k == 1 ? 1 : (int)(splitmix(x) & 1); }
+    LweKey *keys[4]; for (int k = 0; k < 4; k++) { keys[k] = new_LweKey(par); uint64_t x = 31 + n; for (int i = 0; i < n; i++) keys[k]->key[i] = k == 0 ? 0 : k == 1 ? 1 : k == 2 ? (int)(splitmix(x) & 1) : (i % 5 == 0 ? -1 : i % 5 == 1 ? 2 : i % 5 == 2 ? (int32_t)splitmix(x) : (int)(splitmix(x) % 7) - 3); }   // key 3: arbitrary integers (ternary, small, full-width): the phase is b - <a,s> for any integer key
     static const char *OPS[] = {"Clear", "Copy", "Negate", "NoiselessTrivial", "AddTo", "SubTo", "AddMulTo", "SubMulTo"};
     for (int op = 0; op < 8; op++) for (int pi = 0; pi < (op >= 6 ? 7 : 1); pi++) for (int alias = 0; alias < ((op == 0 || op == 3) ? 1 : 2); alias++) for (int k1 = 0; k1 < 3; k1++) for (int k2 = 0; k2 < (alias || op == 0 || op == 3 ? 1 : 3); k2++) {
         int32_t p = op >= 6 ? PS[pi] : 1;
@@ -36,7 +36,7 @@ static void lwe_group(int n) {
         Snap R = snap(r, n), C = snap(src, n);
         uint32_t up = (uint32_t)p; Torus32 mu = (Torus32)0xDEADBEEF;
         // the library's own phase / decryption of the result object BEFORE the in-place operation (a client that reads the phase before and after must see both)
-        uint32_t lib_before[3]; for (int k = 0; k < 3; k++) lib_before[k] = (uint32_t)lwePhase(r, keys[k]); Torus32 dec_before = lweSymDecrypt(r, keys[2], 8);
+        uint32_t lib_before[4]; for (int k = 0; k < 4; k++) lib_before[k] = (uint32_t)lwePhase(r, keys[k]); Torus32 dec_before = lweSymDecrypt(r, keys[2], 8);
         switch (op) { case 0: lweClear(r, par); break; case 1: lweCopy(r, src, par); break; case 2: lweNegate(r, src, par); break; case 3: lweNoiselessTrivial(r, mu, par); break;
                       case 4: lweAddTo(r, src, par); break; case 5: lweSubTo(r, src, par); break; case 6: lweAddMulTo(r, p, src, par); break; case 7: lweSubMulTo(r, p, src, par); break; }
         // expected coefficients
@@ -48,7 +48,7 @@ static void lwe_group(int n) {
         // the operand must be unchanged unless aliased
         if (ok && !alias && op != 0 && op != 3) { Snap C2 = snap(c2, n); if (C2.a != C.a || C2.b != C.b || C2.var != C.var) { violation(key, "input operand modified"); ok = false; } }
         // phase identity under three keys (library lwePhase against the reference phase of the expected combination)
-        for (int k = 0; k < 3 && ok; k++) {
+        for (int k = 0; k < 4 && ok; k++) {
             uint32_t pr = (uint32_t)ref::lwe_phase((Torus32 *)R.a.data(), (Torus32)R.b, keys[k]->key, n), pc = (uint32_t)ref::lwe_phase((Torus32 *)C.a.data(), (Torus32)C.b, keys[k]->key, n);
             uint32_t wantph = op == 3 ? (uint32_t)mu : ex(pr, pc);
             uint32_t got = (uint32_t)lwePhase(r, keys[k]);
@@ -64,7 +64,7 @@ static void lwe_group(int n) {
         outcome(mix(fnv(r->a, n * 4 > 32 ? 32 : n * 4), op));
     }
     current(fmt("lwe/n=%d/(end-of-group)", n));
-    for (int k = 0; k < 3; k++) delete_LweKey(keys[k]);
+    for (int k = 0; k < 4; k++) delete_LweKey(keys[k]);
     delete_LweSample(r); delete_LweSample(c2); delete_LweParams(par);
 }
 
